@@ -107,3 +107,30 @@ Proof. split; vm_compute; reflexivity. Qed.
 Lemma ex_rk4_moves :
   veqb (rk_iter rk4_tab rk4_b (rhs2_node 0 exG ex_nodelist ex_idx ex_tr ex_rc) (1 # 10) 0 1 (ex_V 0)) (ex_V 0) = false.
 Proof. vm_compute. reflexivity. Qed.
+
+(* ---------- fast_nonMarkov_SIS ---------- *)
+From EoNV Require Import EventSIS C14xSis.
+Lemma ex_iso_adj_all : forall u, Permutation (gadj exG' (ex_phi_g u)) (map ex_phi_g (gadj exG u)).
+Proof.
+  intros u. cbn [gadj exG exG']. unfold exA.
+  destruct (N.eqb_spec u 10) as [->|N1]; [apply permb_spec; vm_compute; reflexivity|].
+  destruct (N.eqb_spec u 20) as [->|N2]; [apply permb_spec; vm_compute; reflexivity|].
+  destruct (N.eqb_spec u 30) as [->|N3]; [apply permb_spec; vm_compute; reflexivity|].
+  destruct (N.eqb_spec u 40) as [->|N4]; [apply permb_spec; vm_compute; reflexivity|].
+  cbn [map]. unfold exA', ex_phi_g.
+  destruct (N.leb_spec u 100) as [L|L];
+    repeat match goal with |- context [N.eqb ?a ?b] => destruct (N.eqb_spec a b); [exfalso; lia|] end; apply Permutation_refl.
+Qed.
+Definition ex_sdur (v : node) (k : nat) : Q := 1 + inject_Z (Z.of_N v) / 1000 + inject_Z (Z.of_nat k) / 7.
+Definition ex_sdel (v w : node) (k : nat) : list Q := [(inject_Z (Z.of_N v) + 3 * inject_Z (Z.of_N w)) / 400 + inject_Z (Z.of_nat k) / 11].
+Definition ex_sdur' (v : node) (k : nat) : Q := ex_sdur (ex_phi_g v) k.
+Definition ex_sdel' (v w : node) (k : nat) : list Q := ex_sdel (ex_phi_g v) (ex_phi_g w) k.
+Lemma ex_srules_transported : (forall u k, ex_sdur' (ex_phi_g u) k = ex_sdur u k) /\ (forall u v k, ex_sdel' (ex_phi_g u) (ex_phi_g v) k = ex_sdel u v k).
+Proof. split; intros; unfold ex_sdur', ex_sdel'; rewrite !ex_phi_g_invol; reflexivity. Qed.
+(* the reference run is inside its domain (all event times distinct) and is not trivial *)
+Lemma ex_ref_sis_in_domain :
+  match ref_sis exG ex_sdur ex_sdel (Some 3) 0 true 400 [10%N] with
+  | Ok (out, ok) => ok && Nat.ltb 6 (length (so_rows out))
+  | Err _ => false
+  end = true.
+Proof. vm_compute. reflexivity. Qed.
